@@ -1,14 +1,19 @@
 package props
 
 import (
+	"bytes"
 	"crypto/sha256"
 	"fmt"
 	"image"
 	"image/color"
 	"image/draw"
 	"math"
+	"os"
+	"path/filepath"
 	"runtime"
 	"sort"
+	"strconv"
+	"strings"
 	"sync"
 	"sync/atomic"
 	"time"
@@ -38,7 +43,7 @@ func init() {
 	run.Register(&run.Prop{
 		ID:    "C18",
 		Title: "Independent decodes, renders and encodes are safe to run concurrently",
-		Rule:  "every case is one round: G in {2,4,16,64} goroutines x GOMAXPROCS in {2,4,16}, each goroutine running a PRNG sequence of independent pipelines (decode->render->recording rasterizer, decode->render->vec image, transcode, disassemble, metadata only, decode with palette options, generator helpers + SetPathData -> Encoder, mdicons.ParsePath, colour and viewBox helpers) over the same 4-8 hot corpus slices, palettes, stop lists and path strings; an evaluation is one task; non-trivial = the task overlapped in time with a task of another goroutine on the same input; distinctness by (round, goroutine, task index)",
+		Rule:  "every case is one round: G in {2,4,16,64} goroutines x GOMAXPROCS in {2,4,16}, each goroutine running a PRNG sequence of independent pipelines (decode->render->recording rasterizer, decode->render->vec image, transcode, disassemble, metadata only, decode with palette options, generator helpers + SetPathData -> Encoder, mdicons.ParsePath, mdicons.ParseFile over shared SVG documents on disk, colour and viewBox helpers) over the same 4-8 hot corpus slices, palettes, stop lists and path strings; an evaluation is one task; non-trivial = the task overlapped in time with a task of another goroutine on the same input; distinctness by (round, goroutine, task index)",
 		Assumptions: []string{
 			"the Go race detector reports a race only if the two conflicting accesses happen in the schedules produced; 'all interleavings' is sampled",
 			"the harness adds no synchronisation inside the workload: one start barrier, goroutine-local logs merged after the join",
@@ -51,14 +56,14 @@ func init() {
 				return 96
 			}, Run: c18Round,
 				Min: map[string]int64{"tasks": 50000, "overlapping_same_input_pairs": 1000, "rounds": 50, "globals_hash_checks": 50, "kind_render_log": 1000, "kind_render_pixels": 1000, "kind_transcode": 1000, "kind_disassemble": 1000,
-					"kind_viewbox": 1000, "buffers_reused_for_another_graphic": 500, "kind_options": 1000, "kind_generator": 1000, "kind_mdicons": 1000, "kind_helpers": 1000, "kind_encode_defaults": 1000}},
+					"kind_viewbox": 1000, "buffers_reused_for_another_graphic": 500, "kind_options": 1000, "kind_generator": 1000, "kind_mdicons": 1000, "kind_helpers": 1000, "kind_encode_defaults": 1000, "kind_mdicons_file": 1000}},
 		},
 	})
 }
 
-const nKinds18 = 10
+const nKinds18 = 11
 
-var kind18Names = [nKinds18]string{"render_log", "render_pixels", "transcode", "disassemble", "viewbox", "options", "generator", "mdicons", "helpers", "encode_defaults"}
+var kind18Names = [nKinds18]string{"render_log", "render_pixels", "transcode", "disassemble", "viewbox", "options", "generator", "mdicons", "helpers", "encode_defaults", "mdicons_file"}
 
 type shared18 struct {
 	inputs [][]byte
@@ -84,6 +89,12 @@ type shared18 struct {
 	circ      []mdicons.Circle
 	// opts is a shared, read-only option table with spare capacity; tasks pass prefix views of it
 	opts []decode.DecodeOption
+	// svgNames are SVG documents on disk that all pipelines convert with
+	// mdicons.ParseFile (each into a buffer and an Encoder of its own); svgWant
+	// holds the graphic each one is, composed path by path from the elements the
+	// documents were written from
+	svgNames []string
+	svgWant  [][]byte
 }
 
 func hashOps18(ops []rec.Op) [32]byte {
@@ -235,6 +246,14 @@ func task18(kind int, in int, sh *shared18, variant uint64) [32]byte {
 		var out [32]byte
 		copy(out[:], h.Sum(nil))
 		return out
+	case 10:
+		k := int(variant) % len(sh.svgNames)
+		var out bytes.Buffer
+		_, err := mdicons.ParseFile(sh.svgNames[k], "action", "verif", 24, 48, &out)
+		if got, ok := c20Literal(out.String()); err != nil || !ok || !bytes.Equal(got, sh.svgWant[k]) {
+			atomic.AddInt64(&c18FileMismatch, 1)
+		}
+		return sha256.Sum256(out.Bytes())
 	default:
 		var e encode.Encoder
 		e.Reset(ivg.DefaultViewBox, ivg.DefaultPalette)
@@ -288,6 +307,84 @@ var c18Warm bool
 
 // c18BufferIdentity counts results that depended on which buffer held the bytes.
 var c18BufferIdentity, c18BufferReuses int64
+
+// c18FileMismatch counts whole-icon conversions whose result was not the
+// graphic the document spells (whatever other documents were converted before
+// or meanwhile).
+var c18FileMismatch int64
+
+// c18Documents writes the round's SVG documents: the same number of path
+// elements in each, with and without optional attributes at the same
+// positions, with and without circles.
+func c18Documents(r *run.Rng, sh *shared18, tag string) {
+	ops := []float32{0.3, 0.54, 0.87}
+	for k := 0; k < 5; k++ {
+		var paths []mdicons.Path
+		var circles []mdicons.Circle
+		for i := 0; i < 3; i++ {
+			d, _ := gen.PathString(r, false)
+			p := mdicons.Path{D: d}
+			switch k {
+			case 0: // every optional attribute present
+				o, fo := ops[i], ops[(i+1)%3]
+				p.Opacity, p.FillOpacity, p.Fill = &o, &fo, "#fff"
+			case 1: // none
+			case 2:
+				fo := ops[i]
+				p.FillOpacity = &fo
+			case 3:
+				if i == 1 {
+					o := ops[2]
+					p.Opacity = &o
+				}
+			}
+			paths = append(paths, p)
+		}
+		if k == 4 {
+			paths = paths[:1]
+			circles = []mdicons.Circle{{Cx: 6, Cy: 7, R: 2}, {Cx: 15, Cy: 9.5, R: 1.25}}
+		}
+		var doc strings.Builder
+		f := func(v float32) string { return strconv.FormatFloat(float64(v), 'g', -1, 32) }
+		doc.WriteString(`<svg xmlns="http://www.w3.org/2000/svg" width="24" height="24" viewBox="0 0 24 24">` + "\n")
+		for _, p := range paths {
+			doc.WriteString("  <path")
+			if p.Fill != "" {
+				fmt.Fprintf(&doc, ` fill="%s"`, p.Fill)
+			}
+			if p.Opacity != nil {
+				fmt.Fprintf(&doc, ` opacity="%s"`, f(*p.Opacity))
+			}
+			if p.FillOpacity != nil {
+				fmt.Fprintf(&doc, ` fill-opacity="%s"`, f(*p.FillOpacity))
+			}
+			fmt.Fprintf(&doc, ` d="%s"/>`+"\n", p.D)
+		}
+		for _, cc := range circles {
+			fmt.Fprintf(&doc, `  <circle cx="%s" cy="%s" r="%s"/>`+"\n", f(cc.Cx), f(cc.Cy), f(cc.R))
+		}
+		doc.WriteString("</svg>\n")
+		name := filepath.Join(run.ScratchDir(), fmt.Sprintf("c18-%s-%d.svg", tag, k))
+		if os.WriteFile(name, []byte(doc.String()), 0644) != nil {
+			continue
+		}
+		var enc encode.Encoder
+		enc.Reset(ivg.ViewBox{MinX: -24, MinY: -24, MaxX: 24, MaxY: 24}, ivg.DefaultPalette)
+		adjs := map[float32]uint8{}
+		pending := circles
+		for i := range paths {
+			mdicons.ParsePath(&enc, &paths[i], adjs, 24, f32.Vec2{}, 48, pending)
+			pending = nil
+		}
+		want, err := enc.Bytes()
+		if err != nil {
+			os.Remove(name)
+			continue
+		}
+		sh.svgNames = append(sh.svgNames, name)
+		sh.svgWant = append(sh.svgWant, append([]byte(nil), want...))
+	}
+}
 
 type span18 struct {
 	s, e int64
@@ -371,6 +468,16 @@ func c18Round(c *run.Ctx, idx uint64) {
 	sh.opts = make([]decode.DecodeOption, 0, 8)
 	sh.opts = append(sh.opts, decode.WithColorAt(2, color.RGBA{9, 8, 7, 0xff}), decode.WithColorAt(3, color.NRGBA{200, 100, 50, 0x80}), decode.WithPalette(pal), decode.WithColorAt(0, color.Gray{0x33}))
 
+	c18Documents(r, sh, fmt.Sprint(idx))
+	defer func() {
+		for _, n := range sh.svgNames {
+			os.Remove(n)
+		}
+	}()
+	if len(sh.svgNames) == 0 {
+		c.Count("scratch_files_unavailable", 1)
+		return
+	}
 	G := r.Pick(2, 4, 16, 64)
 	procs := r.Pick(2, 4, 16)
 	if !c18Warm {
@@ -471,6 +578,9 @@ func c18Round(c *run.Ctx, idx uint64) {
 		c.Violate("shared-input-modified", desc)
 	}
 	c.Count("buffers_reused_for_another_graphic", atomic.SwapInt64(&c18BufferReuses, 0))
+	if n := atomic.SwapInt64(&c18FileMismatch, 0); n != 0 {
+		c.Violate("icon-conversion-depends-on-other-conversions", map[string]interface{}{"round": desc, "occurrences": n})
+	}
 	if n := atomic.SwapInt64(&c18BufferIdentity, 0); n != 0 {
 		c.Violate("result-depends-on-the-buffer-not-on-its-bytes", map[string]interface{}{"round": desc, "occurrences": n})
 	}
